@@ -159,10 +159,15 @@ func sanitizationContextForAttrVal(element, attr, linkRel string) (sanitizationC
 		// Special case: safehtml.URL values are allowed in a link element's href attribute if that element's
 		// rel attribute possesses certain values.
 		relVals := strings.Fields(linkRel)
+		allURLLinkRelVals := len(relVals) > 0
 		for _, val := range relVals {
-			if urlLinkRelVals[val] {
-				return sanitizationContextTrustedResourceURLOrURL, nil
+			if !urlLinkRelVals[val] {
+				// e.g. rel="alternate stylesheet" loads a style sheet.
+				allURLLinkRelVals = false
 			}
+		}
+		if allURLLinkRelVals {
+			return sanitizationContextTrustedResourceURLOrURL, nil
 		}
 	}
 	if dataAttributeNamePattern.MatchString(attr) {
@@ -184,6 +189,9 @@ func sanitizationContextForAttrVal(element, attr, linkRel string) (sanitizationC
 	}
 	return 0, fmt.Errorf("actions must not occur in the %q attribute value context of a %q element", attr, element)
 }
+
+// unknownLinkRel is the linkRel of a link element whose rel attribute value contains an action.
+const unknownLinkRel = " {{unknown}} "
 
 // dataAttributeNamePattern matches valid data attribute names.
 // This pattern is conservative and matches only a subset of the valid names defined in
